@@ -441,7 +441,106 @@ def load_program(repo=None, extra_defs=(), want_tool=True, cache=True):
     prog.tool_units = [u for u, _ in tool] if want_tool else []
     prog.flags = flags
     prog.tree_hash = key
+    prog.inlined_calls = inline_expression_functions(prog)
     return prog
+
+
+def inline_expression_functions(prog):
+    """Calls of `static`/`inline` helpers whose whole body is `return <side-effect-free expression over the parameters>;` are
+    replaced in the AST by that expression with the arguments substituted (`instr_has_type(k, T)` becomes
+    `(INSTR_TABLE[(k)].type == (T))`), so a predicate written as a macro and the same predicate written as a small function look
+    alike to every rule.  Only calls whose arguments are themselves free of side effects are replaced.  Returns the number of
+    replaced calls."""
+    import copy
+    SIDE = ("CallExpr", "CompoundAssignOperator", "StmtExpr")
+
+    def pure(e):
+        for m in walk(e):
+            k = m.get("kind")
+            if k in SIDE:
+                return False
+            if k == "BinaryOperator" and m.get("opcode") == "=":
+                return False
+            if k == "UnaryOperator" and m.get("opcode") in ("++", "--"):
+                return False
+        return True
+    cands = {}
+    for name, f in prog.functions.items():
+        if f.get("storageClass") != "static" and not f.get("inline"):
+            continue
+        body = prog.body(f)
+        if body is None:
+            continue
+        st = kids(body)
+        if len(st) != 1 or st[0].get("kind") != "ReturnStmt" or not kids(st[0]):
+            continue
+        e = kids(st[0])[0]
+        ps = prog.params(f)
+        if any("*" in qtype(p) or "[" in qtype(p) for p in ps):
+            continue
+        # the expression may call other candidates only; checked after the candidate set is known
+        cands[name] = (f, ps, e)
+    changed = True
+    while changed:          # drop candidates that call a non-candidate or themselves, or have other side effects
+        changed = False
+        for name, (f, ps, e) in list(cands.items()):
+            ok = True
+            for m in walk(e):
+                k = m.get("kind")
+                if k == "CallExpr" and (callee_name(m) not in cands or callee_name(m) == name):
+                    ok = False
+                if k in ("CompoundAssignOperator", "StmtExpr") or (k == "BinaryOperator" and m.get("opcode") == "=") or \
+                        (k == "UnaryOperator" and m.get("opcode") in ("++", "--")):
+                    ok = False
+            if not ok:
+                del cands[name]
+                changed = True
+    if not cands:
+        return 0
+    n = 0
+
+    def subst(e, binding):
+        if isinstance(e, dict):
+            if e.get("kind") == "DeclRefExpr" and e.get("referencedDecl", {}).get("id") in binding:
+                a = copy.deepcopy(binding[e["referencedDecl"]["id"]])
+                return {"kind": "ParenExpr", "type": e.get("type", {}), "valueCategory": e.get("valueCategory", "prvalue"),
+                        "range": e.get("range", {}), "inner": [a], "id": e.get("id", "") + "'"}
+            out = {}
+            for k, v in e.items():
+                out[k] = subst(v, binding) if k == "inner" else v
+            return out
+        if isinstance(e, list):
+            return [subst(x, binding) for x in e]
+        return e
+
+    def rewrite(node, depth=0):
+        nonlocal n
+        if not isinstance(node, dict):
+            return
+        for c in node.get("inner", []) or []:
+            rewrite(c, depth)
+        if node.get("kind") == "CallExpr" and callee_name(node) in cands and depth < 6:
+            f, ps, e = cands[callee_name(node)]
+            args = call_args(node)
+            if len(args) != len(ps) or not all(pure(a) for a in args):
+                return
+            binding = {p["id"]: a for p, a in zip(ps, args)}
+            new = subst(copy.deepcopy(e), binding)
+            rewrite(new, depth + 1)
+            keep = {k: node[k] for k in ("id", "range", "type", "valueCategory") if k in node}
+            node.clear()
+            node.update(keep)
+            node["kind"] = "ParenExpr"
+            node["inner"] = [new]
+            node["_inlined"] = callee_name({"kind": "CallExpr", "inner": []}) or True
+            n += 1
+    for name, f in prog.functions.items():
+        if name in cands:
+            continue
+        b = prog.body(f)
+        if b is not None:
+            rewrite(b)
+    return n
 
 
 # --------------------------------------------------------------------------
